@@ -5,7 +5,7 @@
 use crate::gen::network::{self as gn, NetOpts};
 use crate::panics;
 use crate::report::Ctx;
-use crate::rng::{hash_f64s, mix, Rng};
+use crate::rng::{hash_f64s, hash_str, mix, Rng};
 use altrios_core::track::{CatPowerLimit, Elev, Heading, Link, LinkIdx, Network, SpeedLimit};
 use altrios_core::traits::SerdeAPI;
 use altrios_core::uc;
@@ -359,6 +359,9 @@ pub fn run(ctx: &mut Ctx, rng: &mut Rng, _thorough: bool) {
     for (k, f) in fs.into_iter().enumerate() {
         rules_seen.insert(f.rule);
         ctx.count("obs.faults_injected");
+        // one evaluation per faulty network; distinct = (rule, faulty network content)
+        ctx.rep.evaluations += 1;
+        ctx.rep.nontrivial(mix(hash_str(f.rule) ^ net_sig(&f.links)));
         ctx.count(&format!("obs.fault.{}", f.rule));
         for (path, r) in load_paths(ctx, &f.links, &dir, &format!("f{}_{k}", ctx.case)) {
             match r {
